@@ -106,23 +106,36 @@ theorem cross_decode_der (v : Int) (hv : fitsS64 v) (bs : Bytes) (hw : Bytes.wf 
 /-! ### OER / UPER / XER of INTEGER: the native codecs build a temporary INTEGER and delegate -/
 
 /-- the temporary INTEGER built by `NativeInteger_encode_oer/_uper` is *the* canonical INTEGER of
-    the value: it equals every minimal `INTEGER_t` denoting the same value (for `field_unsigned`
-    natives: values below 2^63, cf. F2). -/
+    the value: it equals every minimal `INTEGER_t` denoting the same value (a `field_unsigned`
+    native cell holds a non-negative value: `hun`). -/
 theorem nativeToINTEGER_eq_wide (unsigned : Bool) (v : Int) (hv : fitsS64 v) (bs : Bytes)
-    (hw : Bytes.wf bs) (hne : bs ≠ []) (hm : MinimalTwos bs) (hbs : twosVal bs = v) :
+    (hw : Bytes.wf bs) (hne : bs ≠ []) (hm : MinimalTwos bs) (hbs : twosVal bs = v)
+    (hun : unsigned = true → 0 ≤ v) :
     nativeToINTEGER unsigned (wordOfLong v) = bs := by
   have e : nativeToINTEGER unsigned (wordOfLong v) = imax2INTEGER (toSigned64 (wordOfLong v)) := by
-    unfold nativeToINTEGER ulong2INTEGER; cases unsigned <;> rfl
+    unfold nativeToINTEGER ulong2INTEGER umax2INTEGER
+    cases unsigned with
+    | false => rfl
+    | true =>
+      have h0 := hun rfl
+      have hf := hv
+      unfold fitsS64 at hf
+      have hwv : wordOfLong v = v.toNat := by unfold wordOfLong; omega
+      have hts := toSigned64_wordOfLong v hv
+      simp only [if_true]
+      rw [if_pos (by rw [hwv]; omega), hts, hwv]
+      congr 1; omega
   rw [e, toSigned64_wordOfLong v hv]
   exact (minimal_eq_imax2INTEGER bs hw hne hm v hbs hv).symm
 
 /-- **-fwide-types does not change OER**: same octets (or the same failure) from the native cell and
     from the minimal `INTEGER_t` of the same value, for every OER constraint `{width, positive}`. -/
 theorem native_oer_eq_wide (width : Nat) (positive unsigned : Bool) (v : Int) (hv : fitsS64 v) (bs : Bytes)
-    (hw : Bytes.wf bs) (hne : bs ≠ []) (hm : MinimalTwos bs) (hbs : twosVal bs = v) :
+    (hw : Bytes.wf bs) (hne : bs ≠ []) (hm : MinimalTwos bs) (hbs : twosVal bs = v)
+    (hun : unsigned = true → 0 ≤ v) :
     NativeInteger_encode_oer width positive unsigned (wordOfLong v) = INTEGER_encode_oer width positive bs := by
   unfold NativeInteger_encode_oer
-  rw [nativeToINTEGER_eq_wide unsigned v hv bs hw hne hm hbs]
+  rw [nativeToINTEGER_eq_wide unsigned v hv bs hw hne hm hbs hun]
 
 /-- `INTEGER_encode_uper` does not depend on `field_unsigned` for non-negative `long` values and
     non-negative bounds (the wide build of `INTEGER (0..MAX)` has no specifics, the native one has
@@ -160,10 +173,11 @@ theorem INTEGER_encode_uper_unsigned_irrelevant (ct : Option PerCt) (bs : Bytes)
     only allowed for a non-negative value and non-negative bounds. -/
 theorem native_uper_eq_wide (unsN unsW : Bool) (ct : Option PerCt) (v : Int) (hv : fitsS64 v) (bs : Bytes)
     (hw : Bytes.wf bs) (hne : bs ≠ []) (hm : MinimalTwos bs) (hbs : twosVal bs = v)
-    (hflag : unsN ≠ unsW → 0 ≤ v ∧ ∀ c, ct = some c → 0 ≤ c.lb ∧ c.lb < 2 ^ 63 ∧ 0 ≤ c.ub ∧ c.ub < 2 ^ 63) :
+    (hflag : unsN ≠ unsW → 0 ≤ v ∧ ∀ c, ct = some c → 0 ≤ c.lb ∧ c.lb < 2 ^ 63 ∧ 0 ≤ c.ub ∧ c.ub < 2 ^ 63)
+    (hun : unsN = true → 0 ≤ v) :
     NativeInteger_encode_uper unsN ct (wordOfLong v) = INTEGER_encode_uper unsW ct bs := by
   unfold NativeInteger_encode_uper
-  rw [nativeToINTEGER_eq_wide unsN v hv bs hw hne hm hbs]
+  rw [nativeToINTEGER_eq_wide unsN v hv bs hw hne hm hbs hun]
   by_cases hf : unsN = unsW
   · rw [hf]
   · obtain ⟨h0, hct⟩ := hflag hf
